@@ -21,28 +21,6 @@ Proof.
   apply IH. destruct ((k' =? k) && (n' =? n)); [|exact W]. apply do_write_wstate. exact W.
 Qed.
 
-Lemma e_hooks_do_write : forall e kind k, e_hooks (do_write e kind k) = e_hooks e.
-Proof.
-  intros e kind k. unfold do_write.
-  assert (P : forall e k, e_hooks (w_put e k) = e_hooks e).
-  { intros e0 k0. unfold w_put. cbn. reflexivity. }
-  assert (Q : forall e k, e_hooks (w_del e k) = e_hooks e).
-  { intros e0 k0. unfold w_del. destruct (t_live (e_tab e0) k0); reflexivity. }
-  assert (R : forall g e k, e_hooks (w_stat g e k) = e_hooks e).
-  { intros g e0 k0. unfold w_stat. destruct (t_live (e_tab e0) k0) as [[o r]|]; [|reflexivity].
-    match goal with |- e_hooks (if ?c then _ else _) = _ => destruct c end; reflexivity. }
-  assert (S : forall e k, e_hooks (w_ref e k) = e_hooks e).
-  { intros e0 k0. unfold w_ref. destruct (t_live (e_tab e0) k0) as [[o r]|]; [|reflexivity].
-    destruct (o_kind o); reflexivity. }
-  destruct kind as [|[[p|p|]|[p|[p|p|]|]|]]; try apply S; try apply P; try apply R; try apply Q.
-Qed.
-
-Lemma e_hooks_run_hooks : forall hs k n e, e_hooks (run_hooks hs k n e) = e_hooks e.
-Proof.
-  induction hs as [|[[k' n'] [wk k2]] r IH]; intros k n e; cbn [run_hooks]; [reflexivity|].
-  rewrite IH. destruct ((k' =? k) && (n' =? n)); [apply e_hooks_do_write|reflexivity].
-Qed.
-
 (* a scripted operation changes the table only through user writes (of ANY kind): the cover is kept *)
 Lemma do_call_wstate : forall D e snap fresh op o rev c res q,
   wstate D (e_tab e) c res q ->
